@@ -295,9 +295,11 @@ def is_valid_ip(ip: str) -> bool:
 
     Supports IPv4 and IPv6.
     """
-    if not ip or "\x00" in ip:
+    if not ip or "\x00" in ip or not ip.isascii():
         # getaddrinfo resolves empty strings to localhost, and truncates
-        # on zero bytes.
+        # on zero bytes. Non-ASCII strings are passed through the IDNA
+        # codec first, which maps e.g. "1.2.3.4\xad" or "\xb9.2.3.4" to a
+        # numeric address although the string itself is not one.
         return False
     try:
         res = socket.getaddrinfo(
